@@ -9,6 +9,7 @@ namespace {
 struct Variant {
   emc::Cfg cfg;
   bool pgscan = false;
+  bool slow = false;  // scripted actions that take virtual time; half-second clock advances
   std::string name;
 };
 struct C05 : vr::Driver {
@@ -78,6 +79,29 @@ struct C05 : vr::Driver {
         v.name = "pgscan";
         vs.push_back(v);
       }
+    // slow actions: the STOP arrives later than the tick started, and the pause counts from the STOP
+    for (int d : {1, 2})
+      for (int p : {-1, 1})
+        for (int which = 0; which < (th ? 3 : 2); which++) {
+          Variant v;
+          v.slow = true;
+          emc::RulesetCfg rs;
+          rs.name = "R0";
+          rs.delay = d;
+          rs.groupNames = {"g0"};
+          rs.groups = {{"R0g0d0"}};
+          emc::ActionCfg a0{"R0a0"}, a1{"R0a1"};
+          if (which == 0) a0.busy = 0.5;
+          if (which == 1) a1.busy = 0.5;
+          if (which == 2) a0.busy = 0.5, a1.busy = 1.5;
+          a1.ownDelay = p;
+          if (p >= 0) a1.json = "{\"name\":\"verif_scripted\",\"args\":{\"id\":\"R0a1\",\"post_action_delay\":\"" + std::to_string(p) + "\"" +
+                                (a1.busy > 0 ? ",\"busy\":\"" + std::to_string(a1.busy) + "\"" : std::string()) + "}}";
+          rs.actions = {a0, a1};
+          v.cfg.rulesets.push_back(rs);
+          v.name = "slow-actions";
+          vs.push_back(v);
+        }
   }
   size_t count() override { return vs.size(); }
   std::string describe(size_t i) override { return vs[i].name + " config " + vs[i].cfg.brief() + " json=" + vs[i].cfg.json(); }
@@ -86,6 +110,7 @@ struct C05 : vr::Driver {
   void run(size_t i, vr::Result& r, bool verbose) override {
     emc::Options opt;
     opt.dts = {1, 2, 3};
+    if (vs[i].slow) opt.dts = {0.5, 1, 2};
     opt.keyDeadline = true;
     opt.arity = [](const std::string& id) { return id.find('d') != std::string::npos ? 2 : 3; };
     opt.setupWorld = [] {
@@ -103,7 +128,7 @@ struct C05 : vr::Driver {
     return "per configuration (ruleset delay x plugin post_action_delay x prekill-hook variant x optional second "
            "ruleset; real kill_by_memory_size_or_growth / kill_by_pg_scan in dry mode behind an observer): BFS to "
            "fixpoint over (remaining pause, suspended action, remaining prekill window); each tick explores detector "
-           "verdicts, scripted action returns, hook poll answers {finished, running} x clock advance {1,2,3}s; oracle: "
+           "verdicts, scripted action returns, hook poll answers {finished, running} x clock advance {1,2,3}s; plus scripted chains whose actions take 0.5/1.5 virtual seconds with clock advances {0.5,1,2}s; oracle: "
            "after STOP at t with effective delay d' (plugin's if given, else ruleset's) no action of the ruleset runs "
            "before t+d', the chain starts at the first firing tick >= t+d', detectors/preruns run every tick, other "
            "ruleset unaffected (reference-model equality + private pause state)";
@@ -117,7 +142,7 @@ struct C05 : vr::Driver {
     return b;
   }
   std::vector<std::string> assumptions() override {
-    return {"dry-run kill path (no sleeps inside the action), so STOP time == tick time",
+    return {"dry-run kill path (no sleeps inside the real kill action); STOP later than the tick start is covered by the slow scripted actions (0.5 / 1.5 virtual seconds, half-second clock advances)",
             "per-instance pause for ruleset-cgroup rulesets is explored by C11's check"};
   }
 };
